@@ -207,7 +207,7 @@ def hosts_slices():
         h.out("y")
         out.append(h.build())
     # slice_split: two slices covering the halves of the last axis
-    for xs, cut in [((2, 4), 2), ((2, 4), 1), ((4,), 2), ((2, 6), 3)]:
+    for xs, cut in [((2, 4), 2), ((2, 4), 1), ((4,), 2), ((2, 6), 3), ((2, 5), 2), ((3,), 1), ((1,), 0), ((2, 7), 3)]:
         ax = len(xs) - 1
         d = xs[ax]
         for e0, s1 in [(cut, cut), (cut, cut + 1), (cut - 1, cut)]:
